@@ -113,6 +113,11 @@ pub fn swarm_net(rng: &mut Rng, lat_choices: &[u64], faults: bool) -> NetCfg {
         _ => 0,
     };
     if faults {
+        // a slow bootstrap worker (families whose oracles do not time the worker's effects)
+        if (n.seed / 16) % 4 == 1 {
+            n.worker_stall_ppm = 200_000;
+            n.worker_stall_max_ms = if (n.seed / 64) % 2 == 0 { 700 } else { 3_000 };
+        }
         let rates = [0u32, 0, 5_000, 20_000, 80_000, 200_000];
         if rng.chance(1, 2) {
             n.drop_ppm = *rng.pick(&rates);
